@@ -509,8 +509,8 @@ def run_chart(chart, ops):
       rec["live_trc"] = [parse_trace_line(s) for s in live_trc_lines]
       rec["live_trc_raw"] = list(live_trc_lines)
       events.append(rec)
-      if rec["outcome"] != "ok":
-        break
+      if rec["outcome"] != "ok" and not (rec["k"] == "child_state" and rec["outcome"] == "raised:AssertionError"):
+        break      # (a failed child_state query is an answer, not a crash: the caller catches it and goes on)
   finally:
     mh.stdlib_datetime = old_clock
   return events
